@@ -38,3 +38,55 @@ def pick(rng, n=1, kinds=KINDS):
     """n kinds drawn without replacement by the case's generator."""
     idx = rng.permutation(len(kinds))[:n]
     return [kinds[int(i)] for i in idx]
+
+
+# ---------------------------------------------------------------------- generic comparison of a clone with its original
+def _digest(v, depth):
+    import hashlib
+
+    import numpy as np
+
+    if isinstance(v, np.ndarray):
+        return ("ndarray", str(v.dtype), tuple(v.shape), hashlib.blake2b(np.ascontiguousarray(v).tobytes(), digest_size=8).hexdigest())
+    if isinstance(v, (bool, int, float, complex, str, bytes, type(None), np.generic)):
+        return ("scalar", type(v).__name__, repr(v))
+    if isinstance(v, (list, tuple)):
+        return (type(v).__name__, tuple(_digest(x, depth) for x in v))
+    if isinstance(v, dict):
+        return ("dict", tuple(sorted((repr(k), _digest(x, depth)) for k, x in v.items())))
+    if type(v).__module__.startswith("grid.") and depth > 0:
+        return ("object", type(v).__name__, tuple(sorted(public_state(v, depth - 1).items())))
+    return ("opaque", type(v).__name__)
+
+
+def public_state(obj, depth=2):
+    """{public property or public instance attribute name: digest}: arrays by dtype/shape/bytes, scalars by repr, library
+    objects recursively.  Properties that raise are recorded as such (same on both sides for an honest copy)."""
+    names = {n for n in dir(type(obj)) if not n.startswith("_") and isinstance(getattr(type(obj), n, None), property)}
+    names |= {n for n in getattr(obj, "__dict__", {}) if not n.startswith("_")}  # private storage is the library's business
+    out = {}
+    for n in sorted(names):
+        if n == "kdtree":  # lazily built search tree: no public state of its own
+            continue
+        try:
+            out[n] = _digest(getattr(obj, n), depth)
+        except Exception as exc:  # noqa: BLE001
+            out[n] = ("raised", type(exc).__name__)
+    return out
+
+
+def check_clone(ctx, subject, obj, kind, clause="clone-equals-original"):
+    """Clone ``obj`` and compare every public property / instance attribute with the original; the original must be
+    unchanged by the cloning.  Returns the clone (so that the caller can push it through its own post-conditions)."""
+    before = public_state(obj)
+    with ctx.guard(clause, f"{subject}:{kind}", sig_prefix="raised-while-cloning") as g:
+        c = clone(obj, kind)
+        after = public_state(obj)
+        st = public_state(c)
+        diff = sorted(k for k in set(before) | set(st) if before.get(k) != st.get(k))
+        ctx.check(clause, f"{subject}:{kind}", type(c) is type(obj) and not diff, sig=("clone-differs:" + (diff[0] if diff else "type")), detail={"differing": diff[:6]})
+        changed = sorted(k for k in before if before[k] != after.get(k))
+        ctx.check("original-unchanged-by-cloning", f"{subject}:{kind}", not changed, sig="original-changed:" + (changed[0] if changed else ""), detail={"changed": changed[:6]})
+        ctx.hit("clone:" + kind)
+        return c
+    return None
